@@ -22,6 +22,8 @@ pub enum ROp {
     Nth(u8),
     /// read_nth_shape_as::<another type>(i): a random access that fails with a type mismatch
     NthWrong(u8),
+    /// create a typed iterator of another type and take one item (a type-mismatch error)
+    IterWrong,
     Seek(u8),
     Count,
 }
@@ -73,7 +75,11 @@ pub fn relayout(f: &ValidFile, layout: u8) -> (Vec<u8>, Vec<u8>) {
         };
         body.extend_from_slice(&filler);
         offsets[li] = 100 + body.len();
+        let start = body.len();
         body.extend_from_slice(&f.shp[f.bounds[li].0..f.bounds[li].1]);
+        // arbitrary record numbers are legal (C03): number from 0 (layout 2) or all alike (layout 1)
+        let number: i32 = if layout == 2 { li as i32 } else { 7 };
+        body[start..start + 4].copy_from_slice(&number.to_be_bytes());
     }
     body.extend_from_slice(&[0xEE; 6]);
     let mut shp = f.shp[..100].to_vec();
@@ -202,6 +208,22 @@ fn apply(r: &mut AnyReader, op: ROp, n: usize) -> Result<Obs, PanicInfo> {
             }
             Obs::Items(items, ended)
         }
+        (AnyReader::Shp(r), ROp::IterWrong) => {
+            let mut it = r.iter_shapes_as::<shapefile::Multipatch>();
+            match it.next() {
+                None => Obs::Items(vec![], true),
+                Some(Ok(s)) => Obs::Items(vec![Ok((capture(&shapefile::Shape::from(s)), None))], false),
+                Some(Err(e)) => Obs::Items(vec![Err(classify(&e))], false),
+            }
+        }
+        (AnyReader::Full(r), ROp::IterWrong) => {
+            let mut it = r.iter_shapes_and_records_as::<shapefile::Multipatch, dbase::Record>();
+            match it.next() {
+                None => Obs::Items(vec![], true),
+                Some(Ok((s, rec))) => Obs::Items(vec![Ok((capture(&shapefile::Shape::from(s)), row_idx(&rec)))], false),
+                Some(Err(e)) => Obs::Items(vec![Err(classify(&e))], false),
+            }
+        }
         (AnyReader::Shp(r), ROp::Nth(i)) => Obs::Nth(r.read_nth_shape(i as usize).map(|x| x.map(|s| capture(&s)).map_err(|e| classify(&e)))),
         (AnyReader::Full(_), ROp::Nth(_)) => Obs::Unit(Ok(())),
         (AnyReader::Shp(r), ROp::NthWrong(i)) => {
@@ -222,6 +244,7 @@ fn op_name(op: ROp) -> String {
         ROp::Iter(j) => format!("iter-{}", j),
         ROp::Nth(i) => format!("nth({})", i),
         ROp::NthWrong(i) => format!("nth-as-other-type({})", i),
+        ROp::IterWrong => "iter-as-other-type-1".into(),
         ROp::Seek(k) => format!("seek({})", k),
         ROp::Count => "count".into(),
     }
@@ -237,6 +260,7 @@ fn history_site(ops: &[ROp], upto: usize) -> String {
         ROp::Iter(_) => "iter",
         ROp::Nth(_) => "nth",
         ROp::NthWrong(_) => "nthwrong",
+        ROp::IterWrong => "iterwrong",
         ROp::Seek(_) => "seek",
         ROp::Count => "count",
     };
@@ -275,6 +299,10 @@ pub fn run_history(scn: &HrScn, f: &ValidFile, dbf: &[u8], ctx: &mut Ctx) {
     // the model: set of possible positions of the next record an iteration yields;
     // `after_iter` = the previous state-changing call was an iteration that took items
     let mut cand: BTreeSet<usize> = BTreeSet::from([0]);
+    // after a typed iteration that failed, C15 says nothing about where a further iteration
+    // starts (through the complete reader the row of the failed shape is not consumed either):
+    // iterations are not judged again until a seek or a successful random access defines the state
+    let mut unsynced = false;
     for (oi, op) in scn.ops.iter().enumerate() {
         ctx.stats.steps += 1;
         let obs = match apply(&mut rdr, *op, n) {
@@ -328,6 +356,23 @@ pub fn run_history(scn: &HrScn, f: &ValidFile, dbf: &[u8], ctx: &mut Ctx) {
                         ctx.fail("C15", "random-access", site, format!("history {} ({:?}): read_nth_shape({}) at call {} = {:?}", hist, scn.kind, i, oi, x.as_ref().map(item_short)));
                     }
                     cand = BTreeSet::from([0]);
+                    unsynced = false;
+                }
+            }
+            (ROp::IterWrong, Obs::Items(items, _)) => {
+                // what it yields: a mismatch error naming (Multipatch, file type) if a record was there
+                let ok = match items.first() {
+                    None => true,
+                    Some(Err(RErr::Mismatch { requested: 31, actual })) => *actual == scn.ty,
+                    Some(Err(RErr::MissingIndex)) => false,
+                    Some(Err(_)) => unsynced, // only after an earlier failed iteration may the source be anywhere
+                    Some(Ok(_)) => false,
+                };
+                if !ok {
+                    ctx.fail("C15", "typed-iteration-of-other-type", site, format!("history {} ({:?}): iterating as Multipatch over a {} file yielded {:?}", hist, scn.kind, type_name(scn.ty), items.iter().map(|i| match i { Ok((g, _)) => g.short(), Err(e) => format!("Err({:?})", e) }).collect::<Vec<_>>()));
+                }
+                if !items.is_empty() {
+                    unsynced = true;
                 }
             }
             (ROp::Seek(k), Obs::Unit(res)) => {
@@ -339,7 +384,11 @@ pub fn run_history(scn: &HrScn, f: &ValidFile, dbf: &[u8], ctx: &mut Ctx) {
                     ctx.fail("C15", "seek-ok", site, format!("history {} ({:?}): seek({}) = {:?}", hist, scn.kind, k, res));
                 } else {
                     cand = BTreeSet::from([(*k as usize).min(n)]);
+                    unsynced = false;
                 }
+            }
+            (ROp::Iter(_), Obs::Items(..)) if unsynced => {
+                ctx.stats.reach("iteration-not-judged-after-failed-typed-iteration");
             }
             (ROp::Iter(j), Obs::Items(items, ended)) => {
                 let want = if *j == 255 { n + 3 } else { *j as usize };
@@ -420,6 +469,7 @@ pub fn alphabet(n: usize) -> Vec<ROp> {
     }
     a.push(ROp::NthWrong(0));
     a.push(ROp::NthWrong(1));
+    a.push(ROp::IterWrong);
     for k in 0..=n {
         a.push(ROp::Seek(k as u8));
     }
@@ -447,7 +497,7 @@ const CONFIGS: [(RKind, bool, u8, usize); 16] = [
     (RKind::ShpIndex, true, 1, 4),
     (RKind::Full, false, 0, 4),
 ];
-const MAX_ALPHABET: usize = 17;
+const MAX_ALPHABET: usize = 18;
 
 /// Sweep unit: (configuration, first letter). All histories up to `max_len` starting with that
 /// letter (for the 4-record configurations one call less, their alphabet has 17 letters).
